@@ -61,6 +61,7 @@ def _mp_result(s):
     except Exception as e:          # noqa: BLE001  (whatever it raises is part of the result)
         net = 'raised %s' % type(e).__name__
     return dict(index=data.get('index', {}).get('i'), received={k: v for k, v in rec.items()}, count=[k.received_parts_count for k in sinks], now=s.env.now,
+                byid=[len(s.find_assets(id_=int(str(k.id)))) for k in sinks],      # look-up by an equal id (a fresh int object)
                 net=net, own=sum(a.value for a in s.find_assets()))
 
 
